@@ -3,6 +3,7 @@
 package c05p1
 
 import (
+	"context"
 	"math"
 
 	"github.com/lugu/qiloop/bus"
@@ -68,6 +69,10 @@ func zzNotNaN32(bits uint32) bool { return sym.Or(bits&0x7f800000 != 0x7f800000,
 func C05Scalars() {
 	im := &zzImpl{}
 	p := MakeScalars(nil, zzServe("Scalars", ScalarsObject(im), (&stubScalars{}).metaObject()))
+	if sym.Bool("through-a-context-bound-proxy") {
+		// the generated WithContext proxy must address the same service and object
+		p = p.WithContext(context.Background())
+	}
 	switch sym.Choose("method", 6) {
 	case 0:
 		a, b, c, d := sym.I8("a"), sym.U8("b"), sym.I16("c"), sym.U16("d")
